@@ -36,7 +36,7 @@ func sliceControl() *slice {
 		Call("Id", TInt, TInt), Call("Pos", TBool, TInt), Call("Add", TInt, TInt, TInt),
 	}
 	return &slice{name: "control", g: NewGrammar(rules), tops: []NT{nt(TBool), nt(TInt)}, modes: lib.AllModes,
-		maxN: map[string]int{"quick": 6, "thorough": 7}}
+		maxN: map[string]int{"quick": 6, "thorough": 8}}
 }
 
 // scalar: arithmetic, comparison, string and membership operators.
@@ -71,7 +71,7 @@ func sliceScalar() *slice {
 		ArrAs(TIntArr, TInt, TInt), ArrAs(TStrArr, TStr),
 	)
 	return &slice{name: "scalar", g: NewGrammar(rules), tops: []NT{nt(TBool), nt(TInt), nt(TFloat), nt(TStr), nt(TIntArr)}, modes: lib.AllModes,
-		maxN: map[string]int{"quick": 4, "thorough": 5}}
+		maxN: map[string]int{"quick": 5, "thorough": 6}}
 }
 
 // access: indexing, slicing, properties, nil-safe navigation, methods, calls, literals.
@@ -98,7 +98,7 @@ func sliceAccess() *slice {
 		Bin("==", TObj, TNil, TBool), Bin("==", TAny, TNil, TBool), Bin("+", TInt, TInt, TInt),
 	}
 	return &slice{name: "access", g: NewGrammar(rules), tops: []NT{nt(TInt), nt(TStr), nt(TObj), nt(TIntArr), nt(TAnyArr), nt(TAnyMap), nt(TBool), nt(TAny)}, modes: lib.AllModes,
-		maxN: map[string]int{"quick": 4, "thorough": 5}}
+		maxN: map[string]int{"quick": 5, "thorough": 7}}
 }
 
 // loops: the seven closure builtins, nested, over members, ranges and builtin results.
@@ -122,5 +122,5 @@ func sliceLoops() *slice {
 		Builtin("map", TIntArr, TInt, TIntArr), Builtin("map", TObjArr, TInt, TIntArr),
 	)
 	return &slice{name: "loops", g: NewGrammar(rules), tops: []NT{nt(TBool), nt(TInt), nt(TIntArr)}, modes: lib.AllModes,
-		maxN: map[string]int{"quick": 6, "thorough": 7}}
+		maxN: map[string]int{"quick": 7, "thorough": 8}}
 }
